@@ -107,6 +107,7 @@ theorem isDict_false_iff (v : PyVal) : isDict v = false ↔ ∀ kvs, v ≠ .dict
 theorem toPartSpecs_eq (p : Path) :
     toPartSpecs p = (do
       if p.datum != .none || p.multi != .none || p.source.isSome then throw .runtime
+      if p.parts.any simplifyRaises then throw .keyError
       let specs ← p.parts.mapM emit
       if !p.concrete && !(specs.any isDict) then throw .runtime
       pure specs) := rfl
@@ -119,10 +120,18 @@ theorem toPartSpecs_modifiers (p : Path) (h : p.datum ≠ .none ∨ p.multi ≠ 
   simp only [this, if_true]
   rfl
 
+/-- `simplify()` raises `KeyError` (checked after the modifiers, before any part is written) -/
+theorem toPartSpecs_keyError (p : Path) (hm : p.datum = .none ∧ p.multi = .none ∧ p.source = none)
+    (h : p.parts.any simplifyRaises = true) : toPartSpecs p = .error .keyError := by
+  rw [toPartSpecs_eq]
+  obtain ⟨h1, h2, h3⟩ := hm
+  simp only [h1, h2, h3, h, if_true]
+  rfl
+
 theorem toPartSpecs_ok (p : Path) (specs : List PyVal) :
     toPartSpecs p = .ok specs ↔
-      (p.datum = .none ∧ p.multi = .none ∧ p.source = none) ∧ p.parts.mapM emit = .ok specs ∧
-      (p.concrete = true ∨ specs.any isDict = true) := by
+      (p.datum = .none ∧ p.multi = .none ∧ p.source = none) ∧ p.parts.any simplifyRaises = false ∧
+      p.parts.mapM emit = .ok specs ∧ (p.concrete = true ∨ specs.any isDict = true) := by
   rw [toPartSpecs_eq]
   by_cases hm : (p.datum != .none || p.multi != .none || p.source.isSome) = true
   · simp only [hm, if_true]
@@ -134,6 +143,14 @@ theorem toPartSpecs_ok (p : Path) (specs : List PyVal) :
         Option.isSome_eq_false_iff, Option.isNone_iff_eq_none] at hm
       exact ⟨hm.1.1, hm.1.2, hm.2⟩
     simp only [hm, Bool.false_eq_true, if_false]
+    cases hr : p.parts.any simplifyRaises with
+    | true =>
+      simp only [if_true]
+      constructor
+      · intro h; cases h
+      · rintro ⟨-, h, -⟩; cases h
+    | false =>
+    simp only [Bool.false_eq_true, if_false]
     cases hs : p.parts.mapM emit with
     | error e => simp [bind, Except.bind]
     | ok specs' =>
@@ -141,17 +158,17 @@ theorem toPartSpecs_ok (p : Path) (specs : List PyVal) :
       · simp only [bind, Except.bind, pure, Except.pure, hc, if_true]
         constructor
         · intro h; cases h
-        · rintro ⟨-, h, h'⟩
+        · rintro ⟨-, -, h, h'⟩
           cases h
           rcases h' with h' | h' <;> simp [h'] at hc
       · have hc' : (!p.concrete && !(specs'.any isDict)) = false := Bool.eq_false_iff.2 hc
         simp only [bind, Except.bind, pure, Except.pure, hc', Bool.false_eq_true, if_false, Except.ok.injEq]
         constructor
         · rintro rfl
-          refine ⟨hm', rfl, ?_⟩
+          refine ⟨hm', trivial, rfl, ?_⟩
           cases hcc : p.concrete <;> simp [hcc] at hc' ⊢
           exact hc'
-        · rintro ⟨-, h, -⟩; exact h
+        · rintro ⟨-, -, h, -⟩; exact h
 
 /-! ### what is emitted; equality against a bare part -/
 
@@ -359,6 +376,23 @@ theorem emit_prims :
     · cases hq; exact emit_str s
     · cases hq; exact emit_int n
 
+/-- parts built from plain keys and indices store `value` by keyword: `simplify()` does not raise -/
+theorem noRaise_prims :
+    ∀ (prims : List PyVal), (∀ v ∈ prims, (∃ s, v = .str s) ∨ (∃ n, v = .int n)) →
+      ∀ parts, (prims.map PartArg.prim).mapM ofArg = .ok parts → parts.any simplifyRaises = false := by
+  intro prims
+  induction prims with
+  | nil => intro _ parts h; rw [(mapM_nil_ok _ _).1 h]; rfl
+  | cons v vs ih =>
+    intro hp parts h
+    rw [List.map_cons] at h
+    obtain ⟨q, qs, hq, hqs, rfl⟩ := (mapM_cons_ok _ _ _ _).1 h
+    have ih' := ih (fun w hw => hp w (by simp [hw])) qs hqs
+    rw [List.any_cons, ih', Bool.or_false]
+    rcases hp v (by simp) with ⟨s, rfl⟩ | ⟨n, rfl⟩
+    · cases hq; rfl
+    · cases hq; rfl
+
 theorem all_prim (prims : List PyVal) : (prims.map PartArg.prim).all argIsPrim = true := by
   simp [argIsPrim]
 
@@ -371,33 +405,35 @@ theorem prims_roundtrip (prims : List PyVal) (p : Path)
   | ok parts =>
     simp only [hm, bind, Except.bind, pure, Except.pure, Except.ok.injEq, all_prim] at h
     subst h
-    exact (toPartSpecs_ok _ _).2 ⟨⟨rfl, rfl, rfl⟩, emit_prims prims hprim parts hm, Or.inl rfl⟩
+    exact (toPartSpecs_ok _ _).2 ⟨⟨rfl, rfl, rfl⟩, noRaise_prims prims hprim parts hm, emit_prims prims hprim parts hm, Or.inl rfl⟩
 
 
-theorem toPartSpecs_single_error (p : Part) (c : Bool) (h : emit p = .error .runtime) :
+/-- a single part that `simplify()` accepts (no `KeyError`) and for which nothing can be emitted -/
+theorem toPartSpecs_single_error (p : Part) (c : Bool) (h : emit p = .error .runtime ∧ simplifyRaises p = false) :
     toPartSpecs { parts := [p], concrete := c, datum := .none, multi := .none, source := none } = .error .runtime := by
   rw [toPartSpecs_eq]
-  simp [List.mapM_cons, h, bind, Except.bind]
+  simp [List.mapM_cons, h.1, h.2, bind, Except.bind]
 
 theorem refuse_value (n : Int) (p : Part)
-    (h : Part.mkMap .none (.cond (eqLeaf .value (.int n))) none none = .ok p) : emit p = .error .runtime := by
+    (h : Part.mkMap .none (.cond (eqLeaf .value (.int n))) none none = .ok p) : emit p = .error .runtime ∧ simplifyRaises p = false := by
   have : Part.mkMap .none (.cond (eqLeaf .value (.int n))) none none =
       .ok { kind := .map, cond := eqLeaf .value (.int n), listCond := Cond.null, mapCond := Cond.null, label := none } := rfl
-  rw [this] at h; cases h; rfl
+  rw [this] at h; cases h; exact ⟨rfl, rfl⟩
 
 theorem refuse_gt (s : String) (p : Part)
     (h : Part.mkMap (.cond (.leaf { cls := .key, fn := "greater_than", args := [], kwargs := [("value", .str s)] })) .none none none = .ok p) :
-    emit p = .error .runtime := by
+    emit p = .error .runtime ∧ simplifyRaises p = false := by
   have : Part.mkMap (.cond (.leaf { cls := .key, fn := "greater_than", args := [], kwargs := [("value", .str s)] })) .none none none =
       .ok { kind := .map, cond := .leaf { cls := .key, fn := "greater_than", args := [], kwargs := [("value", .str s)] },
             listCond := Cond.null, mapCond := Cond.null, label := none } := rfl
-  rw [this] at h; cases h; rfl
+  rw [this] at h; cases h; exact ⟨rfl, rfl⟩
 
 theorem refuse_label (s : String) (p : Part)
-    (h : Part.mkMap (.val (.str s)) .none none (some (.str "lbl")) = .ok p) : emit p = .error .runtime := by
+    (h : Part.mkMap (.val (.str s)) .none none (some (.str "lbl")) = .ok p) : emit p = .error .runtime ∧ simplifyRaises p = false := by
   have : Part.mkMap (.val (.str s)) .none none (some (.str "lbl")) =
       .ok { kind := .map, cond := eqLeaf .key (.str s), listCond := Cond.null, mapCond := Cond.null, label := some (.str "lbl") } := rfl
   rw [this] at h; cases h
+  refine ⟨?_, rfl⟩
   have h2 : ∀ k, partEq { kind := .map, cond := eqLeaf .key (.str s), listCond := Cond.null, mapCond := Cond.null, label := some (.str "lbl") } (barePart k) = false := by
     intro k; cases k <;> rfl
   have h3 : simplifyPart { kind := .map, cond := eqLeaf .key (.str s), listCond := Cond.null, mapCond := Cond.null, label := some (.str "lbl") } = some (.str s) := rfl
@@ -409,16 +445,17 @@ theorem refuse_label (s : String) (p : Part)
   simp [emit, h2, h3, checkPrim, h1, h4, throw, throwThe, MonadExceptOf.throw]
 
 theorem refuse_list_index (n : Int) (p : Part)
-    (h : Part.mkList (.val (.int n)) .none none none = .ok p) : emit p = .error .runtime := by
+    (h : Part.mkList (.val (.int n)) .none none none = .ok p) : emit p = .error .runtime ∧ simplifyRaises p = false := by
   have : Part.mkList (.val (.int n)) .none none none =
       .ok { kind := .list, cond := eqLeaf .index (.int n), listCond := Cond.null, mapCond := Cond.null, label := none } := rfl
-  rw [this] at h; cases h; rfl
+  rw [this] at h; cases h; exact ⟨rfl, rfl⟩
 
 theorem refuse_key_index (n m : Int) (hnm : n ≠ m) (p : Part)
-    (h : Part.mkMolv (.val (.int n)) (.val (.int m)) .none none none none none = .ok p) : emit p = .error .runtime := by
+    (h : Part.mkMolv (.val (.int n)) (.val (.int m)) .none none none none none = .ok p) : emit p = .error .runtime ∧ simplifyRaises p = false := by
   have : Part.mkMolv (.val (.int n)) (.val (.int m)) .none none none none none =
       .ok { kind := .molv, cond := Cond.null, listCond := eqLeaf .index (.int m), mapCond := eqLeaf .key (.int n), label := none } := rfl
   rw [this] at h; cases h
+  refine ⟨?_, rfl⟩
   have h2 : ∀ k, partEq { kind := .molv, cond := Cond.null, listCond := eqLeaf .index (.int m), mapCond := eqLeaf .key (.int n), label := none } (barePart k) = false := by
     intro k; cases k <;> rfl
   have h3 : simplifyPart { kind := .molv, cond := Cond.null, listCond := eqLeaf .index (.int m), mapCond := eqLeaf .key (.int n), label := none } = some (.int m) := rfl
